@@ -39,10 +39,14 @@ def space_of(order, dims):
     return sp
 
 
-def make_fn(sig, impl, name="_f"):
-    """a plain function `def name(<sig>)` forwarding its arguments by keyword to impl"""
-    src = "def %s(%s):\n    return _impl(%s)\n" % (name, ", ".join(sig), ", ".join("%s=%s" % (a, a) for a in sig))
+def make_fn(sig, impl, name="_f", defaults=None):
+    """a plain function `def name(<sig>)` forwarding its arguments by keyword to impl; `defaults` (name -> value) gives
+    trailing parameters of sig a declared default"""
+    defaults = defaults or {}
+    params = ["%s=_d_%s" % (a, a) if a in defaults else a for a in sig]
+    src = "def %s(%s):\n    return _impl(%s)\n" % (name, ", ".join(params), ", ".join("%s=%s" % (a, a) for a in sig))
     ns = {"_impl": impl}
+    ns.update({"_d_" + k: v for k, v in defaults.items()})
     exec(src, ns)
     return ns[name]
 
@@ -194,7 +198,7 @@ class LinFn:
     """f(vars) = c0 + sum_v sum_c coef[v][c] * v[c]   (one output column), symbolic coefficients.
     `fn` has the positional signature `sig` (a permutation of the variables)."""
 
-    def __init__(self, env, tag, sig, dims):
+    def __init__(self, env, tag, sig, dims, defaults=None):
         self.sig = list(sig)
         self.coef_t = {v: env.tensor("%s_%s" % (tag, v), (dims[v],)) for v in sig}
         self.c0_t = env.tensor(tag + "_0", ())
@@ -210,7 +214,7 @@ class LinFn:
                 out = term if out is None else out + term
             return out + self.c0_t
 
-        self.fn = make_fn(self.sig, impl, name=tag)
+        self.fn = make_fn(self.sig, impl, name=tag, defaults=defaults)
 
     def value(self, coords):
         return self.c0 + sum(self.coef[v][c] * coords[v][c] for v in self.sig for c in range(len(self.coef[v])))
